@@ -468,6 +468,11 @@ func (g *G) rpmOnlyEntry(i int) *Content {
 		if g.r.P(1, 3) {
 			c.FI = &FI{Mode: rng.Pick(g.r, []int64{0o600, 0o640, 0o664})}
 		}
+		if g.r.P(1, 3) {
+			// the file the ghost stands for, named as src: absent on the build host
+			c.Src = "/nonexistent-verif/run/" + g.word(1) + ".state"
+			g.c.Feature("ghost-with-missing-src")
+		}
 		c.Exp = []Expect{{Dst: d, Kind: "file"}}
 		return c
 	}
